@@ -627,10 +627,21 @@ func (c *Ctx) lookThrough(v ssa.Value) (ssa.Value, bool) {
 	return v, false
 }
 
+// singleReturn: the one value result #idx has at the returns of fn; for a non-error result
+// of a function that also returns an error only the returns with a nil error constant count
+// (the value delivered on success).
 func singleReturn(fn *ssa.Function, idx int) ssa.Value {
 	var rv ssa.Value
+	nres := fn.Signature.Results().Len()
+	errIdx := -1
+	if nres > 1 && isErrType(fn.Signature.Results().At(nres-1).Type()) && idx != nres-1 {
+		errIdx = nres - 1
+	}
 	for _, b := range fn.Blocks {
 		if r, ok := b.Instrs[len(b.Instrs)-1].(*ssa.Return); ok && idx < len(r.Results) {
+			if errIdx >= 0 && !isNilConst(r.Results[errIdx]) {
+				continue
+			}
 			if rv != nil && rv != r.Results[idx] {
 				return nil
 			}
